@@ -1,7 +1,15 @@
-"""C07 - see family_a.py."""
+"""C07 - family A clauses + the sensor cutoff is the last operation on a sensor value (R-CLAMP)."""
 
+from ..rules import r_clamp
+from ..tables import clamp_tables
 from . import family_a
 
 
+def _extra(db, res, tier, scope):
+  n = r_clamp.check_clamp_last(res, scope, clamp_tables.CLAMP_LAST, "C07")
+  res.floor("cutoff-last obligations", n, 30)
+
+
 def run(db, res, tier):
-  family_a.run_family(db, res, tier, "C07")
+  family_a.run_family(db, res, tier, "C07", extra=_extra)
+  res.rule_text += "; R-CLAMP: every sensordata store that applies sensor_cutoff stores the clamp / min result itself"
